@@ -169,7 +169,7 @@ func TestC02(t *testing.T) {
 				}
 				got, err := ses.client(c.Port).Do(c)
 				if err != nil {
-					t.Fatalf("C02 %s harness error at step %d: %v\n%s", cfg, i, err, desc())
+					undecided(t, rec, fmt.Sprintf("C02 %s step %d: %v", cfg, i, err))
 				}
 				outs = append(outs, canonOutcome(got))
 				if d := l1SubsetOfL2(st); d != "" {
